@@ -5,6 +5,10 @@
 // shard-group boundary × storage layout cache/TSM/mixed/overwritten) every ReadFilter request of a declared
 // (time range × predicate) family and every ReadGroup request of a declared (group mode × group keys × aggregate ×
 // range × predicate) family is executed and compared with a reference model built from the written points.
+// A third family ("C": shard-group presence patterns) spreads the series over THREE (thorough: also four) shard groups:
+// every series is present or absent per group, so a series may have points in an earlier and a later shard and none in
+// a shard between them, where that shard does not exist / exists but does not know the field (nil cursor) / knows the
+// field through another series of the same measurement (non-nil, immediately empty cursor).
 //
 // What the oracle demands (and nothing more than the statement says):
 //   - filter: every series (measurement, tag set, field) that matches the predicate and has ≥ 1 stored point in
@@ -73,10 +77,43 @@ type Cell struct {
 //	mixed     even slots written, snapshot, odd slots written (every shard has TSM + cache data, interleaved in time)
 //	tsm2      even slots, snapshot, odd slots, snapshot (two TSM files per shard)
 //	overwrite every point written with an OLD value, snapshot, every point written again with its final value
+//
+// Families A and B use the four slots of slotT (two shard groups). Family C uses Groups shard groups with two slots per
+// group: slot 2g = first nanosecond of group g, slot 2g+1 = last nanosecond of group g (so slots 2g+1 and 2g+2 are
+// adjacent nanoseconds across every shard-group boundary).
 type Dataset struct {
-	Fam   string `json:"family"`
-	Cells []Cell `json:"cells"`
-	Mode  string `json:"mode"`
+	Fam    string `json:"family"`
+	Cells  []Cell `json:"cells"`
+	Mode   string `json:"mode"`
+	Groups int    `json:"groups,omitempty"` // family C only: number of shard groups (3 or 4)
+}
+
+// slotC is the time of slot k of family C.
+func slotC(k int) int64 {
+	if k%2 == 0 {
+		return mini.Base + int64(k/2)*H
+	}
+	return mini.Base + int64(k/2+1)*H - 1
+}
+
+// slots are the slot times of the dataset's family.
+func (ds Dataset) slots() []int64 {
+	if ds.Fam != "C" {
+		return slotT[:]
+	}
+	out := make([]int64, 2*ds.Groups)
+	for k := range out {
+		out[k] = slotC(k)
+	}
+	return out
+}
+
+// ngroups is the number of shard groups the dataset's slots span.
+func (ds Dataset) ngroups() int {
+	if ds.Fam != "C" {
+		return 2
+	}
+	return ds.Groups
 }
 
 func value(s, f, k int, old bool) any {
@@ -176,6 +213,9 @@ func relT(t int64) string {
 	}
 	d := t - mini.Base
 	if d >= H/2 {
+		if n := (d + H/2) / H; n > 1 { // only family C reaches beyond the second shard group
+			return fmt.Sprintf("B+%dH%+d", n, d-n*H)
+		}
 		return fmt.Sprintf("B+H%+d", d-H)
 	}
 	return fmt.Sprintf("B%+d", d)
@@ -383,7 +423,7 @@ func famBCells(pat []int) []Cell {
 }
 
 func datasets(thorough bool) []Dataset {
-	var out []Dataset
+	var out, outB []Dataset
 	nser, modesB, modesA := 3, []string{"mixed", "overwrite"}, []string{"tsm"}
 	if thorough {
 		nser, modesB, modesA = 4, []string{"cache", "tsm", "mixed", "tsm2", "overwrite"}, []string{"cache", "tsm", "mixed", "tsm2", "overwrite"}
@@ -429,10 +469,11 @@ func datasets(thorough bool) []Dataset {
 	sort.SliceStable(pats, func(i, j int) bool { return present(pats[i]) < present(pats[j]) })
 	for _, pat := range pats {
 		for _, mode := range modesB {
-			out = append(out, Dataset{Fam: "B", Cells: famBCells(pat), Mode: mode})
+			outB = append(outB, Dataset{Fam: "B", Cells: famBCells(pat), Mode: mode})
 		}
 	}
-	return out
+	// family A first, then families B and C in alternating blocks of 16 (each simplest-first)
+	return append(out, interleave(outB, datasetsC(thorough), 16)...)
 }
 
 func present(p []int) int {
@@ -443,6 +484,208 @@ func present(p []int) int {
 		}
 	}
 	return n
+}
+
+// ---------------------------------------------------------------------------------------------------------
+// family C ("shard-group presence patterns"): G shard groups, two slots per group; every pool series is present
+// (both slots of the group) or absent in each group. A dataset is a vector of G-bit presence masks, one per pool
+// series. Field layout, fixed by the identity of the series:
+//
+//	m0{a=x}      f0+f1     m0{a=y,b=z}  f0
+//	m1{a=x,b=z}  f1        m1{b=w}      f0+f1
+//
+// so that inside either measurement a group skipped by one series and written by the other yields, for the skipping
+// series, a non-nil empty cursor for the shared field (float in m0, integer in m1) and a nil cursor for the other field;
+// a group written only by the other measurement yields a nil cursor (measurement unknown to the shard), and a group
+// written by nobody has no shard.
+var famCFields = [][]int{{0, 1}, {0}, {1}, {0, 1}}
+
+func famCCells(pm []int, groups int) []Cell {
+	var cells []Cell
+	for s, m := range pm {
+		mask := 0
+		for g := 0; g < groups; g++ {
+			if m>>g&1 == 1 {
+				mask |= 0b11 << (2 * g)
+			}
+		}
+		if mask == 0 {
+			continue
+		}
+		for _, f := range famCFields[s] {
+			cells = append(cells, Cell{s, f, mask})
+		}
+	}
+	return cells
+}
+
+// unwrittenBeforeWritten: the group set u has an unset bit below its highest set bit.
+func unwrittenBeforeWritten(u int) bool {
+	seenUnset := false
+	for g := 0; u>>g != 0; g++ {
+		if u>>g&1 == 0 {
+			seenUnset = true
+		} else if seenUnset {
+			return true
+		}
+	}
+	return false
+}
+
+func popcount(x int) int {
+	n := 0
+	for ; x != 0; x &= x - 1 {
+		n++
+	}
+	return n
+}
+
+// famCVectors enumerates the presence-mask vectors (one mask per pool series) of family C.
+//
+//	mirror: every pair (a,b) of group subsets, not both empty: m0{a=x} and m1{b=w} (the two-field series) are present in
+//	        the groups a, m0{a=y,b=z} and m1{a=x,b=z} (the one-field series) in the groups b – both measurements carry the
+//	        same pattern, m0 with a shared float field and m1 with a shared integer field; and, where a∪b leaves a group
+//	        unwritten that lies before a written one, additionally m0 with (a,b) and m1{a=x,b=z} alone in EVERY group
+//	        (all shards exist; the groups skipped by m0 do not know the measurement m0).
+//	wide:   mirror ∪ every vector in which m0{a=y,b=z} or m1{b=w} is absent everywhere (this contains every pair of
+//	        subsets for the two series of one measurement with 0 or 1 series of the other measurement in any subset).
+func famCVectors(groups int, wide bool) [][]int {
+	all := 1<<groups - 1
+	seen := map[[4]int]bool{}
+	var out [][]int
+	add := func(v [4]int) {
+		if v == [4]int{} || seen[v] {
+			return
+		}
+		seen[v] = true
+		out = append(out, []int{v[0], v[1], v[2], v[3]})
+	}
+	for a := 0; a <= all; a++ {
+		for b := 0; b <= all; b++ {
+			add([4]int{a, b, b, a})
+			if unwrittenBeforeWritten(a | b) {
+				add([4]int{a, b, all, 0})
+			}
+		}
+	}
+	if wide {
+		for x := 0; x < 1<<(4*groups); x++ {
+			v := [4]int{x & all, x >> groups & all, x >> (2 * groups) & all, x >> (3 * groups) & all}
+			if v[1] == 0 || v[3] == 0 {
+				add(v)
+			}
+		}
+	}
+	// simplest first: by the number of (series, group) presences, then by vector
+	sort.SliceStable(out, func(i, j int) bool {
+		pi, pj := 0, 0
+		for k := 0; k < 4; k++ {
+			pi += popcount(out[i][k])
+			pj += popcount(out[j][k])
+		}
+		if pi != pj {
+			return pi < pj
+		}
+		for k := 0; k < 4; k++ {
+			if out[i][k] != out[j][k] {
+				return out[i][k] < out[j][k]
+			}
+		}
+		return false
+	})
+	return out
+}
+
+func datasetsC(thorough bool) []Dataset {
+	var out []Dataset
+	mk := func(groups int, wide bool, modes ...string) {
+		for _, v := range famCVectors(groups, wide) {
+			for _, mode := range modes {
+				out = append(out, Dataset{Fam: "C", Cells: famCCells(v, groups), Mode: mode, Groups: groups})
+			}
+		}
+	}
+	if !thorough {
+		mk(3, false, "mixed")
+		return out
+	}
+	mk(3, true, "mixed")
+	mk(3, false, "cache", "tsm2", "overwrite")
+	mk(4, false, "mixed")
+	return out
+}
+
+// interleave merges two dataset lists in alternating blocks of n (n = the number of workers, so that every worker
+// meets both lists in their own order and a wall-budget cap cuts the tails of both rather than one list entirely).
+func interleave(x, y []Dataset, n int) []Dataset {
+	var out []Dataset
+	for len(x) > 0 || len(y) > 0 {
+		k := min(n, len(x))
+		out, x = append(out, x[:k]...), x[k:]
+		k = min(n, len(y))
+		out, y = append(out, y[:k]...), y[k:]
+	}
+	return out
+}
+
+// requestsC is the request family of a family-C dataset with the given number of shard groups. Cut points: MinInt64,
+// one cut INSIDE every group (just after its first slot, so the range starts/ends between the two points of the group),
+// MaxInt64; thorough adds every group boundary and the last nanosecond of every group. ReadFilter: every range [s,e)
+// over the cut points × predicates. ReadGroup: key lists × every aggregate setting × ranges (full, cutting inside the
+// first and the last group, ...) × predicates.
+func requestsC(thorough bool, groups int) []Req {
+	cutSet := map[int64]bool{math.MinInt64: true, math.MaxInt64: true}
+	for g := 0; g < groups; g++ {
+		cutSet[slotC(2*g)+1] = true
+		if thorough {
+			if g > 0 {
+				cutSet[slotC(2*g)] = true
+			}
+			cutSet[slotC(2*g+1)] = true
+		}
+	}
+	var c []int64
+	for x := range cutSet {
+		c = append(c, x)
+	}
+	sort.Slice(c, func(i, j int) bool { return c[i] < c[j] })
+	fp := []*P{nil, eq("a", "x"), eq("_field", "f0"), ne("a", "x")}
+	if thorough {
+		fp = append(fp, eq("_field", "f1"))
+	}
+	var out []Req
+	for i := range c {
+		for j := i + 1; j < len(c); j++ {
+			for _, p := range fp {
+				out = append(out, Req{Kind: "filter", Start: c[i], End: c[j], Pred: p})
+			}
+		}
+	}
+	inFirst, inLast := slotC(0)+1, slotC(2*groups-2)+1
+	gr := []rng{{math.MinInt64, math.MaxInt64}, {inFirst, inLast}, {inFirst, math.MaxInt64}}
+	type gk struct {
+		mode string
+		keys []string
+	}
+	gks := []gk{{"by", []string{"a"}}, {"by", []string{"_measurement", "_field"}}, {"none", []string{}}}
+	if thorough {
+		gr = append(gr, rng{math.MinInt64, inLast}, rng{slotC(2) + 1, math.MaxInt64})
+		gks = append(gks, gk{"by", []string{}})
+	}
+	for _, agg := range allAggs {
+		ps := []*P{nil}
+		if thorough && agg == "" {
+			ps = append(ps, eq("a", "x"))
+		}
+		for _, g := range gks {
+			for _, r := range gr {
+				for _, p := range ps {
+					out = append(out, Req{Kind: "group", Start: r.s, End: r.e, Pred: p, GMode: g.mode, Keys: g.keys, Agg: agg})
+				}
+			}
+		}
+	}
+	return out
 }
 
 // ---------------------------------------------------------------------------------------------------------
@@ -492,9 +735,9 @@ func buildModel(ds Dataset) *model {
 			tags[t.K] = t.V
 		}
 		mc := &mcell{key: cellKey(tags), tags: tags, field: c.F}
-		for k := 0; k < 4; k++ {
+		for k, t := range ds.slots() {
 			if c.Mask>>k&1 == 1 {
-				mc.pts = append(mc.pts, mini.Pt{T: slotT[k], V: value(c.S, c.F, k, false)})
+				mc.pts = append(mc.pts, mini.Pt{T: t, V: value(c.S, c.F, k, false)})
 			}
 		}
 		if len(mc.pts) == 0 {
@@ -854,10 +1097,11 @@ func load(ds Dataset) (*mini.Fixture, mini.Bucket, error) {
 		f.Close()
 		return nil, b, err
 	}
+	slotTimes := ds.slots()
 	batch := func(slots func(k int) bool, old bool) []mini.Point {
 		var pts []mini.Point
 		for s := range pool {
-			for k := 0; k < 4; k++ {
+			for k := range slotTimes {
 				if !slots(k) {
 					continue
 				}
@@ -868,7 +1112,7 @@ func load(ds Dataset) (*mini.Fixture, mini.Bucket, error) {
 					}
 				}
 				if len(fields) > 0 {
-					pts = append(pts, mini.Point{M: pool[s].M, Tags: pool[s].Tags, Fields: fields, T: slotT[k]})
+					pts = append(pts, mini.Point{M: pool[s].M, Tags: pool[s].Tags, Fields: fields, T: slotTimes[k]})
 				}
 			}
 		}
@@ -966,18 +1210,20 @@ func run(f *mini.Fixture, b mini.Bucket, md *model, r Req, wantRaw bool) (v verd
 	return
 }
 
-func nShards(r Req) int {
+// nShards is the number of the dataset's shard groups [B+g·1h, B+(g+1)·1h) that intersect the request's range.
+func nShards(ds Dataset, r Req) int {
 	n := 0
-	if r.Start < mini.Base+H && r.End > mini.Base {
-		n++
-	}
-	if r.End > mini.Base+H && r.Start < mini.Base+2*H {
-		n++
+	for g := 0; g < ds.ngroups(); g++ {
+		lo := mini.Base + int64(g)*H
+		if r.Start < lo+H && r.End > lo {
+			n++
+		}
 	}
 	return n
 }
 
-func sigOf(r Req, clause string) string {
+// sigOf: hole is "" for families A and B (their signatures are unchanged) and the hole flavour for family C.
+func sigOf(ds Dataset, r Req, clause, hole string) string {
 	api := "ReadFilter"
 	if r.Kind == "group" {
 		api = "ReadGroup-" + r.GMode
@@ -985,7 +1231,72 @@ func sigOf(r Req, clause string) string {
 			api += "-agg"
 		}
 	}
-	return vlib.JoinSig(api, clause, "pred="+r.Pred.kind(), fmt.Sprintf("shards-in-range=%d", nShards(r)))
+	parts := []string{api, clause, "pred=" + r.Pred.kind(), fmt.Sprintf("shards-in-range=%d", nShards(ds, r))}
+	if hole != "" {
+		parts = append(parts, "hole="+hole)
+	}
+	return vlib.JoinSig(parts...)
+}
+
+// holeInfo (family C) describes the expected result of a request in terms of shard groups, from the model only:
+// span = the largest number of shard groups between (and including) the first and the last in-range point of a series
+// not excluded by the predicate; hole = the strongest flavour of a "skipped" shard group of such a series: a group that intersects the
+// range, lies before the group of the series' last in-range point, and holds no in-range point of the series (the read
+// has to step over that shard to reach the later points):
+//
+//	none                no expected series skips a shard group
+//	no-shard            nothing at all was written into the skipped group (the shard does not exist)
+//	shard-without-field something was written there, but not this field of this measurement (the shard's cursor is nil)
+//	empty-cursor        another series of the same measurement wrote this field there (non-nil, immediately empty cursor)
+var holeRank = map[string]int{"none": 0, "no-shard": 1, "shard-without-field": 2, "empty-cursor": 3}
+
+func groupOf(t int64) int { return int((t - mini.Base) / H) }
+
+func holeInfo(md *model, r Req) (span int, hole string) {
+	hole = "none"
+	for _, k := range md.keys {
+		mc := md.cells[k]
+		if match(r.Pred, mc.tags) == no { // "either" (tag != v on a series lacking the tag): judged if returned
+			continue
+		}
+		w := inRange(mc.pts, r)
+		if len(w) == 0 {
+			continue
+		}
+		has := map[int]bool{}
+		for _, p := range w {
+			has[groupOf(p.T)] = true
+		}
+		first, last := groupOf(w[0].T), groupOf(w[len(w)-1].T)
+		span = max(span, last-first+1)
+		for g := 0; g < last; g++ {
+			if has[g] || r.Start >= mini.Base+int64(g+1)*H { // group g lies before the range
+				continue
+			}
+			fl := "no-shard"
+			for _, ok := range md.keys {
+				oc := md.cells[ok]
+				in := false
+				for _, p := range oc.pts {
+					if groupOf(p.T) == g {
+						in = true
+					}
+				}
+				if !in {
+					continue
+				}
+				if oc.tags["_measurement"] == mc.tags["_measurement"] && oc.tags["_field"] == mc.tags["_field"] {
+					fl = "empty-cursor"
+				} else if fl == "no-shard" {
+					fl = "shard-without-field"
+				}
+			}
+			if holeRank[fl] > holeRank[hole] {
+				hole = fl
+			}
+		}
+	}
+	return
 }
 
 func expectNonEmpty(md *model, r Req) (n int, straddle bool) {
@@ -1012,6 +1323,10 @@ func TestCheck(t *testing.T) {
 			"Requests per family-B dataset: ReadFilter for every range [s,e) over the cut points (quick: MinInt64,t0+1,t1,t2,t2+1,t3+1 → 15 ranges; thorough: every slot±1 + MinInt64/MaxInt64 = 12 cuts → 66 ranges + 3 empty ranges) × every predicate (quick 10; thorough 33: none, a=x, a!=x, a=y, b=z, b!=z, a=q, _measurement =/!=, _field =/!=, AND and OR of every pair of the atoms a=x, b=z, _measurement=m0, _field=f0, a!=x); " +
 			"ReadGroup without aggregate for group-by over key lists (quick 9; thorough: all 16 subsets of {_measurement,a,b,_field}, each also in reversed order, + [nokey], [a,nokey] = 29) and group none, × ranges (quick 3; thorough 8) × predicates (quick 2; thorough 4); ReadGroup with each aggregate of {count,sum,min,max,first,last,mean} for group-by key lists (quick [a],[_measurement,_field]; thorough: the subsets of size ≤1 and 4 + unknown key) and group none × ranges (quick 3; thorough 4) × predicates (2). " +
 			"Family-A datasets get every range × predicates {none, a=x, _field=f0, a!=x} and group-by [a], group-by [], group none × all 8 aggregate settings × the group ranges. quick = 336 / 132 requests per B / A dataset, thorough = 3773 / 468. " +
+			"Family C (shard-group presence patterns): G 1h shard groups (quick 3; thorough 3 and 4), two slots per group (first and last nanosecond of the group: adjacent nanoseconds across every boundary); a dataset assigns every pool series a subset of the G groups in which it is present (both slots), field layout fixed per series (m0{a=x}: f0+f1; m0{a=y,b=z}: f0; m1{a=x,b=z}: f1; m1{b=w}: f0+f1), so a group skipped by a series is, for that series, a missing shard (nobody wrote there) / a shard that does not know the field or the measurement (nil cursor) / a shard that knows the field through the other series of the measurement (non-nil, immediately empty cursor; float in m0, integer in m1); this includes present-absent-present, absent-present-absent, absent-absent-present, … for every series. " +
+			"'mirror' = every pair (a,b) of group subsets, not both empty: the two-field series m0{a=x}, m1{b=w} present in a, the one-field series m0{a=y,b=z}, m1{a=x,b=z} present in b ((2^G)^2-1 vectors), plus, where a∪b leaves a group unwritten before a written one, m0 with (a,b) and m1{a=x,b=z} alone in every group (24 / 135 vectors for G = 3 / 4); 'wide' = mirror ∪ every vector of four subsets in which m0{a=y,b=z} or m1{b=w} is absent everywhere. quick: mirror over 3 groups, layout mixed = 87 datasets; thorough: wide over 3 groups, layout mixed (1008) + mirror over 3 groups × layouts cache,tsm2,overwrite (261) + mirror over 4 groups, layout mixed (390) = 1659 datasets. " +
+			"Requests per family-C dataset: cut points MinInt64, one cut inside every group (first slot+1, i.e. between the two points of the group), MaxInt64 (thorough: + every group boundary + the last nanosecond of every group); ReadFilter for every range [s,e) over the cuts (quick 10; thorough 45 / 78 for 3 / 4 groups) × predicates {none, a=x, _field=f0, a!=x} (thorough + _field=f1); ReadGroup for group-by [a], group-by [_measurement,_field], group none (thorough + group-by []) × all 8 aggregate settings × ranges {full, inside first group → inside last group, inside first group → MaxInt64} (thorough + 2) × predicate none (thorough: + a=x without aggregate). quick = 112 requests per C dataset, thorough = 405 / 570 (3 / 4 groups). All reads are ascending (the storage read API has no descending mode). " +
+			"Visiting order: family A, then families B and C in alternating blocks of 16 datasets, each family simplest-first. " +
 			"Oracle: reference model of the written points (see file header). non-trivial = requests for which the model expects ≥1 series with points (distinct by construction).",
 		Assumptions: []string{
 			"series returned with an empty/nil cursor are not judged (except that they must be stored series that are not excluded by the predicate)",
@@ -1019,21 +1334,27 @@ func TestCheck(t *testing.T) {
 			"order of series inside a filter result / inside a group is not judged (the statement orders points and groups only); a missing group-key value may sort first or last, consistently",
 			"aggregate results are judged by value only (count/sum/min/max/first/last/mean of exactly the model points in range); their time stamps are not judged",
 			"an error returned by a read on these valid inputs is reported as a violation (class 'error')",
-			"background compaction/retention are off (mini fixture); shard groups are 1h (the minimum the meta client allows)",
+			"background compaction/retention are off (mini fixture); shard groups are 1h (the minimum the meta client allows); one shard per shard group, created on demand by the first write into the group",
 		},
 		QuickBudgetS: 75, ThoroughBudgetS: 800,
 		Run: func(c *vlib.Ctx) {
-			reqsOf := map[string][]Req{"A": requests(c.Thorough(), "A"), "B": requests(c.Thorough(), "B")}
+			reqsOf := map[string][]Req{"A": requests(c.Thorough(), "A"), "B": requests(c.Thorough(), "B"),
+				"C3": requestsC(c.Thorough(), 3), "C4": requestsC(c.Thorough(), 4)}
 			dss := datasets(c.Thorough())
+			perFam := map[string]int{}
+			for _, ds := range dss {
+				perFam[ds.Fam]++
+			}
 			c.Note("datasets_total", fmt.Sprint(len(dss)))
-			c.Note("requests_per_dataset", fmt.Sprintf("family A: %d, family B: %d", len(reqsOf["A"]), len(reqsOf["B"])))
+			c.Note("datasets_per_family", fmt.Sprintf("A: %d, B: %d, C: %d", perFam["A"], perFam["B"], perFam["C"]))
+			c.Note("requests_per_dataset", fmt.Sprintf("family A: %d, family B: %d, family C: %d (3 groups) / %d (4 groups)", len(reqsOf["A"]), len(reqsOf["B"]), len(reqsOf["C3"]), len(reqsOf["C4"])))
 			done := int64(0)
 			for i, ds := range dss {
 				if !c.Mine(int64(i)) {
 					continue
 				}
 				if c.Expired() {
-					c.Cap(fmt.Sprintf("wall budget: datasets are visited simplest-first; this shard completed %d of its datasets (all requests for each)", done))
+					c.Cap(fmt.Sprintf("wall budget: datasets are visited family A first, then B and C in alternating blocks, each simplest-first; this shard completed %d of its datasets (all requests for each)", done))
 					return
 				}
 				md := buildModel(ds)
@@ -1042,7 +1363,11 @@ func TestCheck(t *testing.T) {
 					c.HarnessError(fmt.Sprintf("dataset %+v: %v", ds, err))
 					continue
 				}
-				for _, r := range reqsOf[ds.Fam] {
+				rk := ds.Fam
+				if ds.Fam == "C" {
+					rk = fmt.Sprintf("C%d", ds.Groups)
+				}
+				for _, r := range reqsOf[rk] {
 					v := run(f, b, md, r, false)
 					c.Eval(1)
 					want, straddle := expectNonEmpty(md, r)
@@ -1056,14 +1381,28 @@ func TestCheck(t *testing.T) {
 							kind += "-agg"
 						}
 					}
-					c.Outcome(fmt.Sprintf("%s/series-with-points=%d/groups=%d/empty-series=%v/straddle=%v", kind, v.nonEmpty, min(v.nGroups, 5), v.emptySer > 0, straddle))
+					hole := ""
+					if ds.Fam == "C" {
+						var span int
+						span, hole = holeInfo(md, r)
+						ck := "filter"
+						if r.Kind == "group" {
+							ck = "group"
+							if r.Agg != "" {
+								ck = "group-agg"
+							}
+						}
+						c.Outcome(fmt.Sprintf("C/%s/max-shard-span=%d/hole=%s", ck, span, hole))
+					} else {
+						c.Outcome(fmt.Sprintf("%s/series-with-points=%d/groups=%d/empty-series=%v/straddle=%v", kind, v.nonEmpty, min(v.nGroups, 5), v.emptySer > 0, straddle))
+					}
 					cs := Case{ds, r}
 					switch {
 					case v.panicked != "":
 						fr := v.panicked[strings.LastIndex(v.panicked, "@ ")+2:]
-						c.Violation(sigOf(r, "panic/"+fr), fmt.Sprintf("%s on dataset %+v: %s", r, ds, v.panicked), cs)
+						c.Violation(sigOf(ds, r, "panic/"+fr, hole), fmt.Sprintf("%s on dataset %+v: %s", r, ds, v.panicked), cs)
 					case v.err != nil:
-						c.Violation(sigOf(r, "error"), fmt.Sprintf("%s on dataset %+v returned error: %v", r, ds, v.err), cs)
+						c.Violation(sigOf(ds, r, "error", hole), fmt.Sprintf("%s on dataset %+v returned error: %v", r, ds, v.err), cs)
 					default:
 						seen := map[string]bool{}
 						for _, p := range v.probs {
@@ -1071,7 +1410,7 @@ func TestCheck(t *testing.T) {
 								continue
 							}
 							seen[p.clause] = true
-							c.Violation(sigOf(r, p.clause), fmt.Sprintf("%s on dataset %+v: %s", r, ds, p.detail), cs)
+							c.Violation(sigOf(ds, r, p.clause, hole), fmt.Sprintf("%s on dataset %+v: %s", r, ds, p.detail), cs)
 						}
 					}
 					if c.WantSample() && want >= 2 && straddle && r.Pred != nil {
@@ -1095,7 +1434,12 @@ func TestCheck(t *testing.T) {
 			defer f.Close()
 			v := run(f, b, md, cs.Req, true)
 			var sb strings.Builder
-			fmt.Fprintf(&sb, "request: %s\ndataset: family %s, layout %s; stored series:\n", cs.Req, cs.DS.Fam, cs.DS.Mode)
+			fam := cs.DS.Fam
+			if fam == "C" {
+				span, hole := holeInfo(md, cs.Req)
+				fam = fmt.Sprintf("C (%d shard groups; expected max shard span %d, hole flavour %s)", cs.DS.Groups, span, hole)
+			}
+			fmt.Fprintf(&sb, "request: %s\ndataset: family %s, layout %s; stored series:\n", cs.Req, fam, cs.DS.Mode)
 			for _, k := range md.keys {
 				fmt.Fprintf(&sb, "  %s %s\n", k, fmtPts(md.cells[k].pts))
 			}
